@@ -192,7 +192,7 @@ def install(it):
     def c_sqrt(x):
         return math.sqrt(x) if x >= 0 else math.nan
     reg(['sqrt', 'llvm.sqrt.f64'], m1('sqrt', c_sqrt, sym_sqrt))
-    reg(['fabs', 'llvm.fabs.f64'], m1('fabs', abs, lambda it, x: it.sym_fabs(x)))
+    reg(['fabs', 'llvm.fabs.f64', 'llvm.fabs.f32', 'fabsf'], m1('fabs', abs, lambda it, x: it.sym_fabs(x)))
     reg(['floor', 'llvm.floor.f64'], m1('floor', lambda x: float(math.floor(x)) if math.isfinite(x) else x, lambda it, x: S.floor(x)))
     reg(['ceil', 'llvm.ceil.f64'], m1('ceil', lambda x: float(math.ceil(x)) if math.isfinite(x) else x, lambda it, x: S.ceil(x)))
     reg(['trunc', 'llvm.trunc.f64'], m1('trunc', lambda x: float(math.trunc(x)) if math.isfinite(x) else x))
@@ -203,7 +203,23 @@ def install(it):
     reg('acos', m1('acos', c_acos))
     reg('asin', m1('asin', lambda x: math.asin(x) if -1.0 <= x <= 1.0 else math.nan))
     reg('atan', m1('atan', math.atan))
-    reg(['cos', 'llvm.cos.f64'], m1('cos', math.cos)); reg(['sin', 'llvm.sin.f64'], m1('sin', math.sin)); reg('tan', m1('tan', math.tan))
+    def trig(name, f, table):
+        def h(it, a):
+            x = a[0]
+            if type(x) is float:
+                if it.mode == 'real':
+                    # exact-real reading: a double that is the nearest double to k*pi/2 is read as k*pi/2
+                    k = round(x / (math.pi / 2))
+                    if abs(k) <= 8 and x == k * (math.pi / 2):
+                        return table[k % 4]
+                try: return f(x)
+                except (ValueError, OverflowError): return math.nan
+            if x is UNDEF: return UNDEF
+            return S.uf(name, x)
+        return h
+    reg(['cos', 'llvm.cos.f64'], trig('cos', math.cos, [1.0, 0.0, -1.0, 0.0]))
+    reg(['sin', 'llvm.sin.f64'], trig('sin', math.sin, [0.0, 1.0, 0.0, -1.0]))
+    reg('tan', m1('tan', math.tan))
     def c_log(x):
         if x > 0: return math.log(x)
         return -math.inf if x == 0 else math.nan
